@@ -124,6 +124,25 @@ impl<'a> RuleDeclaredEnumeratedValues<'a> {
 impl Visitor<Diagnostic> for RuleDeclaredEnumeratedValues<'_> {
     type Value = ();
 
+    fn visit_enumeration_declaration(
+        &mut self,
+        node: &EnumerationDeclaration,
+    ) -> Result<Self::Value, Diagnostic> {
+        // The default value of an enumeration type (or of an alias of one) must
+        // be one of the values of the enumeration
+        if let Some(value) = &node.spec_init.default {
+            let defined_values = self.find_enum_declaration_values(&node.type_name)?;
+            if !defined_values.contains(value) {
+                return Err(Diagnostic::problem(
+                    Problem::EnumValueNotDefined,
+                    Label::span(value.span(), "Expected value in enumeration"),
+                )
+                .with_context_id("value", &value.value));
+            }
+        }
+        node.recurse_visit(self)
+    }
+
     fn visit_enumerated_initial_value_assignment(
         &mut self,
         init: &EnumeratedInitialValueAssignment,
